@@ -46,6 +46,9 @@ pub struct Target {
     pub base_report: Value,
     pub base_verdict: sdk::Verdict,
     pub layout: u64,
+    /// per manifest ordinal (all but the active = last one): a different manifest carrying that manifest's
+    /// label, made with the public Builder (`definition.label`) and signed with another credential
+    pub forged: Vec<Vec<u8>>,
 }
 
 pub fn definition(title: &str, ver: u8) -> Value {
@@ -147,9 +150,13 @@ pub fn build_kind(kind: &str, no_embed: bool) -> Result<(Signed, Arc<Context>), 
             .map_err(|e| format!("ingredient plain: {e}"))?;
             sign(bd, "ed25519", &b, no_embed)?
         }
-        // A(es256) carries c2pa.metadata; update manifest U(ed25519) redacts it
+        // A0(ed25519) <- A(es256, carries c2pa.metadata and org.verif.note) <- update manifest U(ed25519) which
+        // redacts A's c2pa.metadata and A's org.verif.note and carries its own org.verif.note (same label and
+        // instance as the redacted one); A0 keeps a third org.verif.note. A redaction must only excuse the
+        // missing assertion of the manifest it names.
         "redact" => {
-            let mut ba = builder(&ctx, &definition("A", 2), create)?;
+            let a0 = sign(builder(&ctx, &definition("A0", 2), create)?, "ed25519", &src, false)?.asset;
+            let mut ba = builder(&ctx, &definition("A", 2), Some(BuilderIntent::Edit))?;
             ba.add_assertion(
                 "c2pa.metadata",
                 &json!({
@@ -158,23 +165,27 @@ pub fn build_kind(kind: &str, no_embed: bool) -> Result<(Signed, Arc<Context>), 
                 }),
             )
             .map_err(|e| e.to_string())?;
+            let src = a0;
             let a = sign(ba, "es256", &src, false)?.asset;
             let r = Reader::from_shared_context(&ctx).with_stream(JPEG, Cursor::new(a.clone())).map_err(|e| e.to_string())?;
-            let uri = r
-                .active_manifest()
-                .ok_or("no manifest")?
-                .assertion_references()
-                .find(|r| r.url().contains("c2pa.metadata"))
-                .map(|r| r.url())
-                .ok_or("no metadata reference")?;
-            let mut bu = Builder::from_shared_context(&ctx);
-            bu.set_intent(BuilderIntent::Update);
-            bu.definition.redactions = Some(vec![uri.clone()]);
-            let act = c2pa::assertions::Action::new(c2pa::assertions::c2pa_action::REDACTED)
-                .set_reason(c2pa::assertions::C2paReason::PiiPresent)
-                .set_parameter("redacted", &uri)
-                .map_err(|e| e.to_string())?;
-            bu.add_action(act).map_err(|e| e.to_string())?;
+            let am = r.active_manifest().ok_or("no manifest")?;
+            let find = |needle: &str| am.assertion_references().find(|r| r.url().contains(needle)).map(|r| r.url()).ok_or(format!("no {needle} reference"));
+            let uris = vec![find("c2pa.metadata")?, find("org.verif.note")?];
+            let udef = json!({
+                "title": "U",
+                "claim_version": 2,
+                "claim_generator_info": [{ "name": "verif-harness", "version": "0.1" }],
+                "assertions": [{ "label": "org.verif.note", "data": { "note": "the update manifest's own note", "n": 2 } }]
+            });
+            let mut bu = builder(&ctx, &udef, Some(BuilderIntent::Update))?;
+            bu.definition.redactions = Some(uris.clone());
+            for uri in &uris {
+                let act = c2pa::assertions::Action::new(c2pa::assertions::c2pa_action::REDACTED)
+                    .set_reason(c2pa::assertions::C2paReason::PiiPresent)
+                    .set_parameter("redacted", uri)
+                    .map_err(|e| e.to_string())?;
+                bu.add_action(act).map_err(|e| e.to_string())?;
+            }
             let mut s = sign(bu, "ed25519", &a, no_embed)?;
             if no_embed {
                 // the update manifest has no hard binding of its own; A's data hash was made for the asset
@@ -257,12 +268,43 @@ pub fn build_target(kind: &'static str, mode: Mode) -> Result<Target, String> {
         }
         Mode::Sidecar => (signed.asset, signed.sidecar.ok_or("no sidecar data")?),
     };
-    target_from(kind, mode, ctx, asset, store)
+    let mut forged = vec![];
+    let boxes = jw::walk_store(&store)?;
+    let labels: Vec<String> = boxes.iter().filter(|b| b.depth == 1 && b.is(&jw::T_JUMB)).map(|b| b.label.clone().unwrap_or_default()).collect();
+    if labels.len() >= 2 && !boxes.iter().any(|b| b.is(&jw::T_BROB)) {
+        for l in &labels[..labels.len() - 1] {
+            forged.push(forge_manifest(l)?);
+        }
+    }
+    target_from(kind, mode, ctx, asset, store, forged)
+}
+
+/// A manifest box (jumb) with label `label`, other content and another signer than the manifest it imitates.
+pub fn forge_manifest(label: &str) -> Result<Vec<u8>, String> {
+    let ctx = Arc::new(sdk::context());
+    // v1 manifests are labelled urn:uuid:…, v2 manifests urn:c2pa:…; the Builder insists on the matching form
+    let v1 = label.starts_with("urn:uuid:");
+    let def = json!({
+        "title": "forged",
+        "label": label,
+        "claim_version": if v1 { 1 } else { 2 },
+        "claim_generator_info": [{ "name": "forger", "version": "6.6" }],
+        "assertions": [{ "label": "org.verif.note", "data": { "note": "this manifest was not the ingredient" } }]
+    });
+    let b = builder(&ctx, &def, if v1 { None } else { Some(BuilderIntent::Create(DigitalSourceType::Empty)) })?;
+    let asset = sign(b, "es384", &sdk::fixture("no_manifest.jpg"), false)?.asset;
+    let st = sdk::store_of(JPEG, &asset).map_err(|e| format!("store_of: {e}"))?;
+    let bx = jw::walk_store(&st)?;
+    let m = bx.iter().find(|b| b.depth == 1 && b.is(&jw::T_JUMB)).ok_or("forged store has no manifest")?;
+    if m.label.as_deref() != Some(label) {
+        return Err(format!("the Builder did not use the requested label {label} (got {:?})", m.label));
+    }
+    Ok(st[m.start..m.end()].to_vec())
 }
 
 /// Analyse a signed store: box tree, class table, baseline report (also used by the worker processes, which
 /// load the stores the parent built).
-pub fn target_from(kind: &'static str, mode: Mode, ctx: Arc<Context>, asset: Vec<u8>, store: Vec<u8>) -> Result<Target, String> {
+pub fn target_from(kind: &'static str, mode: Mode, ctx: Arc<Context>, asset: Vec<u8>, store: Vec<u8>, forged: Vec<Vec<u8>>) -> Result<Target, String> {
     let boxes = jw::walk_store(&store)?;
     let (tab, classes) = jw::class_table(&boxes, store.len());
     let name = format!("{kind}/{}", if mode == Mode::Embedded { "jpeg" } else { "sidecar" });
@@ -294,7 +336,7 @@ pub fn target_from(kind: &'static str, mode: Mode, ctx: Arc<Context>, asset: Vec
         }
     }
     let layout = layout_digest(&boxes);
-    Ok(Target { name, kind, mode, asset, store, boxes, tab, classes, ctx, base_report, base_verdict, layout })
+    Ok(Target { name, kind, mode, asset, store, boxes, tab, classes, ctx, base_report, base_verdict, layout, forged })
 }
 
 // ------------------------------------------------------------------------------------------------
@@ -305,6 +347,29 @@ pub fn target_from(kind: &'static str, mode: Mode, ctx: Arc<Context>, asset: Vec
 pub enum Mutation {
     Flip { pos: usize, bit: u8 },
     Edit(jw::Edit),
+    /// splice the forged manifest that carries the label of manifest number `victim` into the store:
+    /// place 0 = right after the victim, 1 = right before it, 2 = instead of it (outer length fixed up)
+    Forge { victim: usize, place: u8 },
+}
+
+pub fn forge_edit(t: &Target, victim: usize, place: u8) -> Option<jw::Edit> {
+    let raw = t.forged.get(victim)?.clone();
+    let idx = t.boxes.iter().enumerate().filter(|(_, b)| b.depth == 1 && b.is(&jw::T_JUMB)).nth(victim)?.0;
+    Some(match place {
+        0 => jw::Edit::InsertAfter { idx, raw, fix: true },
+        1 => jw::Edit::InsertBefore { idx, raw, fix: true },
+        _ => jw::Edit::Replace { idx, raw, fix: true },
+    })
+}
+
+pub fn mutation_kind(m: &Mutation) -> &'static str {
+    match m {
+        Mutation::Flip { .. } => "flip",
+        Mutation::Edit(e) => e.kind(),
+        Mutation::Forge { place: 0, .. } => "forge-after",
+        Mutation::Forge { place: 1, .. } => "forge-before",
+        Mutation::Forge { .. } => "forge-replace",
+    }
 }
 
 #[derive(Clone, Debug, Serialize, Deserialize, PartialEq, Eq, Hash)]
@@ -471,6 +536,15 @@ pub fn describe(t: &Target, m: &Mutation) -> (String, usize, usize) {
             let sp = jw::edit_span(&t.boxes, e).unwrap_or(jw::Span::new(0, 0));
             (format!("{e:?}"), sp.start, sp.end.max(sp.start))
         }
+        Mutation::Forge { victim, place } => {
+            let sp = forge_edit(t, *victim, *place).and_then(|e| jw::edit_span(&t.boxes, &e)).unwrap_or(jw::Span::new(0, 0));
+            let how = match place {
+                0 => "inserted right after it",
+                1 => "inserted right before it",
+                _ => "put in its place",
+            };
+            (format!("a different manifest (other signer, other content) carrying the label of manifest {victim} {how}"), sp.start, sp.end.max(sp.start))
+        }
     }
 }
 
@@ -486,6 +560,7 @@ pub fn apply_mutation(t: &Target, m: &Mutation) -> Option<Vec<u8>> {
             Some(v)
         }
         Mutation::Edit(e) => jw::apply_edit(&t.store, &t.boxes, e),
+        Mutation::Forge { victim, place } => jw::apply_edit(&t.store, &t.boxes, &forge_edit(t, *victim, *place)?),
     }
 }
 
@@ -544,10 +619,7 @@ fn judge_inner(run: &Sink, targets: &BTreeMap<String, Target>, selftest: bool, c
     cls.sort();
     cls.dedup();
     let is_flip = matches!(c.m, Mutation::Flip { .. });
-    let kind_name = match &c.m {
-        Mutation::Flip { .. } => "flip".to_string(),
-        Mutation::Edit(e) => e.kind().to_string(),
-    };
+    let kind_name = mutation_kind(&c.m).to_string();
     // strict rule: content really changed inside a strict span. For whole-box structural edits the content
     // of the box is removed / moved / doubled, which changes what the claim or signature commits to only if
     // the edit is not a pure re-ordering; the strict rule is applied to in-place changes (flips, label/uuid/
@@ -562,7 +634,7 @@ fn judge_inner(run: &Sink, targets: &BTreeMap<String, Target>, selftest: bool, c
         .unwrap_or(SpanClass::Other);
     let detail = class_detail(&main_class, &t.boxes, lo);
     run.count(&format!("{kind_name}:{detail}"));
-    if cls.iter().any(|k| hashed_class(&t.classes[*k])) {
+    if cls.iter().any(|k| hashed_class(&t.classes[*k])) || matches!(c.m, Mutation::Forge { .. }) {
         run.nt.set(true);
     }
     let to_read: &[u8] = if selftest && main_class == SpanClass::ClaimCbor { &t.store } else { &mutated };
@@ -633,6 +705,11 @@ fn judge_inner(run: &Sink, targets: &BTreeMap<String, Target>, selftest: bool, c
 pub fn cases_for(t: &Target, run: &Run, thorough_all_bits: bool, flips_budget: usize) -> Vec<Case> {
     let mut v = vec![];
     let mk = |m: Mutation| Case { target: t.name.clone(), layout: t.layout, m };
+    for victim in 0..t.forged.len() {
+        for place in 0..3u8 {
+            v.push(mk(Mutation::Forge { victim, place }));
+        }
+    }
     for e in jw::all_structural_edits(&t.store, &t.boxes, !run.quick()) {
         v.push(mk(Mutation::Edit(e)));
     }
@@ -646,7 +723,7 @@ pub fn cases_for(t: &Target, run: &Run, thorough_all_bits: bool, flips_budget: u
         return v;
     }
     // stratified: every byte of box headers, description boxes, COSE framing / protected / signature and
-    // claim CBOR gets one seeded bit (headers, toggles and COSE framing: all 8 bits); the remaining budget
+    // claim CBOR and of assertion / data-box / credential content gets one seeded bit (headers, toggles and COSE framing: all 8 bits); the remaining budget
     // is spread over the other bytes.
     let mut rng = SplitMix64::new(run.seed ^ vh::digest(&t.name));
     let mut rest = vec![];
@@ -662,7 +739,12 @@ pub fn cases_for(t: &Target, run: &Run, thorough_all_bits: bool, flips_budget: u
                 }
                 prio += 8;
             }
-            SpanClass::DescriptionBox { .. } | SpanClass::ClaimCbor | SpanClass::CoseSignature => {
+            SpanClass::DescriptionBox { .. }
+            | SpanClass::ClaimCbor
+            | SpanClass::CoseSignature
+            | SpanClass::AssertionPayload { .. }
+            | SpanClass::DataboxPayload
+            | SpanClass::CredentialPayload => {
                 v.push(mk(Mutation::Flip { pos, bit: (rng.next_u64() % 8) as u8 }));
                 prio += 1;
             }
@@ -715,7 +797,10 @@ pub fn save_targets(dir: &str, targets: &BTreeMap<String, Target>) -> Result<(),
     for (n, t) in targets.values().enumerate() {
         std::fs::write(format!("{dir}/t{n}.asset"), &t.asset).map_err(|e| e.to_string())?;
         std::fs::write(format!("{dir}/t{n}.store"), &t.store).map_err(|e| e.to_string())?;
-        list.push(json!({"n": n, "kind": t.kind, "mode": mode_name(t.mode)}));
+        for (k, f) in t.forged.iter().enumerate() {
+            std::fs::write(format!("{dir}/t{n}.forge{k}"), f).map_err(|e| e.to_string())?;
+        }
+        list.push(json!({"n": n, "kind": t.kind, "mode": mode_name(t.mode), "forged": t.forged.len()}));
     }
     std::fs::write(format!("{dir}/targets.json"), Value::Array(list).to_string()).map_err(|e| e.to_string())
 }
@@ -731,7 +816,11 @@ pub fn load_targets(dir: &str) -> Result<BTreeMap<String, Target>, String> {
         let asset = std::fs::read(format!("{dir}/t{n}.asset")).map_err(|e| e.to_string())?;
         let store = std::fs::read(format!("{dir}/t{n}.store")).map_err(|e| e.to_string())?;
         let ctx = Arc::new(sdk::context_with(&settings(kind == "compressed")));
-        let t = target_from(kind, mode, ctx, asset, store)?;
+        let mut forged = vec![];
+        for k in 0..e["forged"].as_u64().unwrap_or(0) {
+            forged.push(std::fs::read(format!("{dir}/t{n}.forge{k}")).map_err(|e| e.to_string())?);
+        }
+        let t = target_from(kind, mode, ctx, asset, store, forged)?;
         out.insert(t.name.clone(), t);
     }
     Ok(out)
@@ -878,7 +967,9 @@ pub fn drive_table(run: &Run, check: &str, cases: Vec<Case>, table: Table, judge
     });
 }
 
-const WORK: &str = "/verif/work/C02";
+fn work_dir() -> String {
+    vh::core::verif_root().join("work/C02").to_string_lossy().to_string()
+}
 const WORKER_ENV: &str = "VERIF_C02_WORKER";
 
 fn all_cases(run: &Run, targets: &Targets) -> Vec<Case> {
@@ -894,7 +985,7 @@ fn main() {
     let run = Run::from_args("C02", "exploration");
     let selftest = std::env::var("VERIF_SELFTEST").map(|v| v == "1").unwrap_or(false);
     if let Ok(spec) = std::env::var(WORKER_ENV) {
-        worker_main(&run, WORK, &spec, &all_cases, &|t, c| judge(t, selftest, c));
+        worker_main(&run, &work_dir(), &spec, &all_cases, &|t, c| judge(t, selftest, c));
     }
     run.set_rule("cases = (signed store, mutation). Stores: single v2 manifest (CBOR, JSON and embedded-file assertions, ed25519), ingredient chain D<-B<-A plus two components (ed25519/ps256/es256, v1 and v2 claims), update manifest with a redaction, Brotli-compressed box-hashed manifest, v1 claim with a data box (es256), plain v1 ps256; each embedded in a JPEG and as sidecar. Mutations: single bit flips (quick: every byte of box headers, description boxes, COSE framing/signature and claim CBOR, a quarter of COSE protected, seeded sample of the rest; thorough: every bit of every byte) and JUMBF structure edits (sibling swap, duplicate, delete, cross-manifest copy, label character, UUID byte, toggle bits, length field +-n with/without fixed parents, XLBox header, LBox=0, inserted free/unknown/cbor/json boxes). Non-trivial = the changed span touches bytes that a hash or the signature commits to (claim CBOR, assertion/databox/credential content, COSE protected/signature, description label/uuid/salt, compressed payload).");
     run.assume("the original stores are produced by the SDK's own Builder and read back as Trusted with the fixture trust anchors");
@@ -939,7 +1030,7 @@ fn main() {
     for t in targets.values() {
         run.count_n(&format!("cases:{}", t.name), cases.iter().filter(|c| c.target == t.name).count() as u64);
     }
-    let table = if run.replay.is_none() { evaluate_sharded(&run, WORK, WORKER_ENV, run.scale(8, 16), &targets, &cases) } else { Default::default() };
+    let table = if run.replay.is_none() { evaluate_sharded(&run, &work_dir(), WORKER_ENV, run.scale(8, 16), &targets, &cases) } else { Default::default() };
     drive_table(&run, "store_mutation", cases, table, &|c| judge(&targets, selftest, c));
     if !run.quick() {
         // every bit of every byte of the listed stores was flipped
